@@ -621,6 +621,6 @@ def x31(cx: Cx, ob: Ob) -> None:
     from ..terms import subterms as _sub, op as _op
     isu = cx.summary(cx.fn("curies.api.Converter.is_uri", ob.id), ob.id)
     via_compress = any(_op(y) == "call" and _op(y[1]) == "attr" and y[1][2] in ("compress", "compress_strict") for r_, _ in isu.returns() for y in _sub(r_))
-    curie_join_check(cx, ob, "compress", is_parse_uri_of("uri"), "self.parse_uri(uri, ...)", nonempty_identifier_only=not via_compress)
+    curie_join_check(cx, ob, "compress", is_parse_uri_of("uri"), "self.parse_uri(uri, ...)", nonempty_identifier_only=not via_compress, alnum_identifiers=True)
     format_curie_check(cx, ob)
     is_uri_check(cx, ob)
